@@ -242,6 +242,12 @@ func (vc *VC) finish(ex *Exec) {
 	for _, g := range spec.ExitGhost {
 		ex.applyGhostUpdateEval(g, st, mkEval())
 	}
+	// frame: every heap component written anywhere in the function
+	for _, key := range sortedKeys(ex.allWrites) {
+		if f := ex.frameFormula(key, st); f != "" {
+			vc.oblige(fmt.Sprintf("frame[%s]", shortKey(key)), "frame", vc.fn.Pos(), exitReach, f, "nothing outside the modifies clause changed in "+key)
+		}
+	}
 	for k, a := range spec.Asserts {
 		t := mkEval().evalBool(a.Expr)
 		vc.oblige(fmt.Sprintf("assert[%d]", k+1), a.Tag, vc.fn.Pos(), exitReach, t, "hint: "+a.Text)
@@ -249,12 +255,6 @@ func (vc *VC) finish(ex *Exec) {
 	for k, e := range spec.Ensures {
 		t := mkEval().evalBool(e.Expr)
 		vc.oblige(fmt.Sprintf("ensures[%d]", k+1), e.Tag, vc.fn.Pos(), exitReach, t, "postcondition: "+e.Text)
-	}
-	// frame: every heap component written anywhere in the function
-	for _, key := range sortedKeys(ex.allWrites) {
-		if f := ex.frameFormula(key, st); f != "" {
-			vc.oblige(fmt.Sprintf("frame[%s]", shortKey(key)), "frame", vc.fn.Pos(), exitReach, f, "nothing outside the modifies clause changed in "+key)
-		}
 	}
 	ex.lockExit(spec, st, exitReach)
 }
